@@ -238,15 +238,19 @@ decreasing_by
     have hm : m ch s = s.rest.length + 1 := by unfold m; simp [h]
     omega
 
+/-- `scanMultilineBody(count1, buf)`: the opening bracket of level `count1` has been read; skip a first line end,
+    then the body loop. -/
+def scanMultilineBody (count1 : Nat) (buf : Buf) (s : Sc) : Except LexErr (Buf × Sc) :=
+  let n1 := next s
+  -- `if ch == '\n' || ch == '\r' { ch = sc.Next() }` (Next never returns '\r')
+  let n2 := if n1.1 = 10 ∨ n1.1 = 13 then next n1.2 else n1
+  mlLoop count1 n2.1 buf n2.2
+
 /-- `scanMultilineString(ch, buf)`; `ch` is the character after the first `[`. -/
 def scanMultilineString (ch : Int) (buf : Buf) (s : Sc) : Except LexErr (Buf × Sc) :=
   let r := countSep ch s
   if r.2.1 ≠ 91 then .error (mkErr r.2.2 (runeStr r.2.1) "invalid multiline string")
-  else
-    let n1 := next r.2.2
-    -- `if ch == '\n' || ch == '\r' { ch = sc.Next() }` (Next never returns '\r')
-    let n2 := if n1.1 = 10 ∨ n1.1 = 13 then next n1.2 else n1
-    mlLoop r.1 n2.1 buf n2.2
+  else scanMultilineBody r.1 buf r.2.2
 
 theorem mlLoop_le (count1 : Nat) (ch : Int) (buf : Buf) (s : Sc) (b : Buf) (s' : Sc)
     (h : mlLoop count1 ch buf s = .ok (b, s')) : s'.rest.length ≤ s.rest.length := by
@@ -266,21 +270,27 @@ theorem mlLoop_le (count1 : Nat) (ch : Int) (buf : Buf) (s : Sc) (b : Buf) (s' :
     have := ih h
     have := next_rest_le s; omega
 
+theorem scanMultilineBody_le (count1 : Nat) (buf : Buf) (s : Sc) (b : Buf) (s' : Sc)
+    (h : scanMultilineBody count1 buf s = .ok (b, s')) : s'.rest.length ≤ s.rest.length := by
+  unfold scanMultilineBody at h
+  simp only [] at h
+  have h0 := mlLoop_le _ _ _ _ _ _ h
+  have h2 := next_rest_le s
+  have h3 : (if (next s).1 = 10 ∨ (next s).1 = 13 then next (next s).2 else next s).2.rest.length
+      ≤ (next s).2.rest.length := by
+    split
+    · exact next_rest_le _
+    · exact Nat.le_refl _
+  omega
+
 theorem scanMultilineString_le (ch : Int) (buf : Buf) (s : Sc) (b : Buf) (s' : Sc)
     (h : scanMultilineString ch buf s = .ok (b, s')) : s'.rest.length ≤ m ch s := by
   unfold scanMultilineString at h
   simp only [] at h
   split at h
   · simp at h
-  · have h0 := mlLoop_le _ _ _ _ _ _ h
+  · have h0 := scanMultilineBody_le _ _ _ _ _ h
     have h1 := countSep_rest_le ch s
-    have h2 := next_rest_le (countSep ch s).2.2
-    have h3 : (if (next (countSep ch s).2.2).1 = 10 ∨ (next (countSep ch s).2.2).1 = 13
-        then next (next (countSep ch s).2.2).2 else next (countSep ch s).2.2).2.rest.length
-        ≤ (next (countSep ch s).2.2).2.rest.length := by
-      split
-      · exact next_rest_le _
-      · exact Nat.le_refl _
     omega
 
 /-- the line-comment loop of `skipComments`:
@@ -300,19 +310,21 @@ theorem lineCommentLoop_le (ch : Int) (s : Sc) : (lineCommentLoop ch s).rest.len
   | case2 ch s h ih => have := next_rest_le s; omega
 
 /-- `skipComments(ch)`; called with `ch` = the second `-`.
-    On a failed long comment the Go code returns `sc.Error(buf.String(), "invalid multiline comment")`: position and
-    buffer are those at which `scanMultilineString` stopped; for its "invalid multiline string" error nothing has been
-    written to the buffer yet. -/
+    `--[` `=`* `[` opens a long comment; `--[` `=`* followed by anything else is a short comment that goes on from
+    the character behind the `=`s (Lua 5.1 llex.c, skip_sep).  On a failed long comment the Go code returns
+    `sc.Error(buf.String(), "invalid multiline comment")`: position and buffer are those at which
+    `scanMultilineBody` stopped. -/
 def skipComments (ch : Int) (s : Sc) : Except LexErr Sc :=
   if peek s = 91 then
     let n := next s
     if peek n.2 = 91 ∨ peek n.2 = 61 then
       let n2 := next n.2
-      match scanMultilineString n2.1 [] n2.2 with
-      | .error e =>
-        .error { e with msg := "invalid multiline comment",
-                        tok := if e.msg = "invalid multiline string" then [] else e.tok }
-      | .ok (_, s') => .ok s'
+      let r := countSep n2.1 n2.2
+      if r.2.1 = 91 then
+        match scanMultilineBody r.1 [] r.2.2 with
+        | .error e => .error { e with msg := "invalid multiline comment" }
+        | .ok (_, s') => .ok s'
+      else .ok (lineCommentLoop r.2.1 r.2.2)
     else .ok (lineCommentLoop n.1 n.2)
   else .ok (lineCommentLoop ch s)
 
@@ -322,13 +334,19 @@ theorem skipComments_le (ch : Int) (s s' : Sc) (h : skipComments ch s = .ok s') 
   split at h
   · simp only [] at h
     split at h
-    · split at h
-      · simp at h
-      · rename_i b s'' hs
-        simp only [Except.ok.injEq] at h
-        have := scanMultilineString_le _ _ _ _ _ hs
-        have := next_m (next s).2
-        have := next_rest_le s
+    · have hc := countSep_rest_le (next (next s).2).1 (next (next s).2).2
+      have hm := next_m (next s).2
+      have hn := next_rest_le s
+      split at h
+      · split at h
+        · simp at h
+        · rename_i b s'' hs
+          simp only [Except.ok.injEq] at h
+          have := scanMultilineBody_le _ _ _ _ _ hs
+          rw [← h]; omega
+      · simp only [Except.ok.injEq] at h
+        have := lineCommentLoop_le (countSep (next (next s).2).1 (next (next s).2).2).2.1
+          (countSep (next (next s).2).1 (next (next s).2).2).2.2
         rw [← h]; omega
     · simp only [Except.ok.injEq] at h
       have := lineCommentLoop_le (next s).1 (next s).2
@@ -417,16 +435,46 @@ theorem scanNumberExpPre_le (f : Buf × Sc) : (scanNumberExpPre f).2.rest.length
   have h2 := next_rest_le (next f.2).2
   split <;> (simp only []; omega)
 
+/-- the loop of `numeralEnd`: `for ch := sc.Peek(); isIdent(ch, 1) || ch == '.'; ch = sc.Peek() { writeChar(buf, sc.Next()) }` -/
+def numeralEndLoop (buf : Buf) (s : Sc) : Buf × Sc :=
+  if isIdent (peek s) 1 = true ∨ peek s = 46 then numeralEndLoop (writeChar buf (next s).1) (next s).2 else (buf, s)
+termination_by s.rest.length
+decreasing_by
+  rename_i h
+  apply next_rest_lt_of_peek
+  rcases h with h | h
+  · simp only [isIdent, isDecimal, Bool.or_eq_true, Bool.and_eq_true, decide_eq_true_eq, beq_iff_eq] at h
+    omega
+  · omega
+
+/-- `numeralEnd(buf, dots)`: a numeral directly followed by an alphanumeric character or `_` (and, before an
+    exponent, by a `.`) is one malformed number (Lua 5.1 llex.c, read_numeral). -/
+def numeralEnd (buf : Buf) (s : Sc) (dots : Bool) : Except LexErr (Buf × Sc) :=
+  if ¬ (isIdent (peek s) 1 = true) ∧ ¬ (dots = true ∧ peek s = 46) then .ok (buf, s)
+  else .error (mkErr (numeralEndLoop buf s).2 (numeralEndLoop buf s).1 "malformed number")
+
+theorem numeralEnd_ok (buf : Buf) (s : Sc) (dots : Bool) (r : Buf × Sc) (h : numeralEnd buf s dots = .ok r) :
+    r = (buf, s) := by
+  unfold numeralEnd at h
+  split at h
+  · simp only [Except.ok.injEq] at h; exact h.symm
+  · simp at h
+
 /-- `scanNumber` from `sc.scanDecimal(ch, buf)` on: integer part, optional fraction, optional exponent; an exponent
-    marker (and sign) not followed by a decimal digit is the error "malformed number". -/
+    marker (and sign) not followed by a decimal digit is the error "malformed number"; every exit goes through
+    `numeralEnd`. -/
 def scanNumberTail (ch : Int) (buf : Buf) (s : Sc) : Except LexErr (Buf × Sc) :=
   if peek (scanNumberFrac ch buf s).2 = 101 ∨ peek (scanNumberFrac ch buf s).2 = 69 then
     if isDecimal (peek (scanNumberExpPre (scanNumberFrac ch buf s)).2) then
-      .ok (scanDecimal (next (scanNumberExpPre (scanNumberFrac ch buf s)).2).1
-            (scanNumberExpPre (scanNumberFrac ch buf s)).1 (next (scanNumberExpPre (scanNumberFrac ch buf s)).2).2)
+      numeralEnd
+        (scanDecimal (next (scanNumberExpPre (scanNumberFrac ch buf s)).2).1
+            (scanNumberExpPre (scanNumberFrac ch buf s)).1 (next (scanNumberExpPre (scanNumberFrac ch buf s)).2).2).1
+        (scanDecimal (next (scanNumberExpPre (scanNumberFrac ch buf s)).2).1
+            (scanNumberExpPre (scanNumberFrac ch buf s)).1 (next (scanNumberExpPre (scanNumberFrac ch buf s)).2).2).2
+        false
     else .error (mkErr (scanNumberExpPre (scanNumberFrac ch buf s)).2 (scanNumberExpPre (scanNumberFrac ch buf s)).1
                   "malformed number")
-  else .ok (scanNumberFrac ch buf s)
+  else numeralEnd (scanNumberFrac ch buf s).1 (scanNumberFrac ch buf s).2 true
 
 theorem scanNumberTail_le (ch : Int) (buf : Buf) (s : Sc) (b : Buf) (s' : Sc)
     (h : scanNumberTail ch buf s = .ok (b, s')) : s'.rest.length ≤ s.rest.length := by
@@ -435,15 +483,17 @@ theorem scanNumberTail_le (ch : Int) (buf : Buf) (s : Sc) (b : Buf) (s' : Sc)
   have h2 := scanNumberExpPre_le (scanNumberFrac ch buf s)
   split at h
   · split at h
-    · simp only [Except.ok.injEq] at h
+    · have := numeralEnd_ok _ _ _ _ h
+      simp only [Prod.mk.injEq] at this
       have h3 := decimalLoop_le (writeChar (scanNumberExpPre (scanNumberFrac ch buf s)).1
         (next (scanNumberExpPre (scanNumberFrac ch buf s)).2).1) (next (scanNumberExpPre (scanNumberFrac ch buf s)).2).2
       have h4 := next_rest_le (scanNumberExpPre (scanNumberFrac ch buf s)).2
-      unfold scanDecimal at h
-      rw [h] at h3; simp only [] at h3; omega
+      unfold scanDecimal at this
+      rw [this.2]; omega
     · simp at h
-  · simp only [Except.ok.injEq] at h
-    rw [h] at h1; exact h1
+  · have := numeralEnd_ok _ _ _ _ h
+    simp only [Prod.mk.injEq] at this
+    rw [this.2]; exact h1
 
 /-- `scanNumber(ch, buf)` -/
 def scanNumber (ch : Int) (buf : Buf) (s : Sc) : Except LexErr (Buf × Sc) :=
@@ -451,7 +501,7 @@ def scanNumber (ch : Int) (buf : Buf) (s : Sc) : Except LexErr (Buf × Sc) :=
     let b1 := writeChar buf ch
     let n := next s
     let h := hexLoop (writeChar b1 n.1) n.2 false
-    if !h.2.2 then .error (mkErr h.2.1 h.1 "illegal hexadecimal number") else .ok (h.1, h.2.1)
+    if !h.2.2 then .error (mkErr h.2.1 h.1 "illegal hexadecimal number") else numeralEnd h.1 h.2.1 false
   else scanNumberTail ch buf s
 
 theorem scanNumber_le (ch : Int) (buf : Buf) (s : Sc) (b : Buf) (s' : Sc)
@@ -461,10 +511,11 @@ theorem scanNumber_le (ch : Int) (buf : Buf) (s : Sc) (b : Buf) (s' : Sc)
   · simp only [] at h
     split at h
     · simp at h
-    · simp only [Except.ok.injEq, Prod.mk.injEq] at h
+    · have he := numeralEnd_ok _ _ _ _ h
+      simp only [Prod.mk.injEq] at he
       have := hexLoop_le (writeChar (writeChar buf ch) (next s).1) (next s).2 false
       have := next_rest_le s
-      rw [← h.2]; omega
+      rw [he.2]; omega
   · exact scanNumberTail_le _ _ _ _ _ h
 
 /-- up to two further decimal digits of a `\ddd` escape:
@@ -726,9 +777,17 @@ theorem skipBlanks_m (s : Sc) : m (skipBlanks s).1 (skipBlanks s).2.1 ≤ s.rest
     simp only []; omega
   · exact a1
 
+/-- what `Scan` reads of `*Lexer`: `PrevTokenType` and the line of `lexer.Token` (the previous token; initially
+    `ast.Token{}`: type 0, line 0). -/
+structure Prev where
+  type : Int := 0
+  line : Int := 0
+deriving Repr, DecidableEq, Inhabited
+
 /-- `Scan(lexer)`: skip blanks, handle comments (`goto redo`), produce one token.
-    `prev` = `lexer.PrevTokenType`; the Boolean of the result is `lexer.PNewLine` after the call. -/
-def scan (prev : Int) (s : Sc) : ScanRes :=
+    The Boolean of the result is `lexer.PNewLine` after the call: for a `(` behind a `)` it says whether the scanner's
+    line (`sc.Pos.Line`, the line of the `(`) differs from the line of the previous token. -/
+def scan (prev : Prev) (s : Sc) : ScanRes :=
   if (skipBlanks s).1 = 45 ∧ peek (skipBlanks s).2.1 = 45 then
     match _hsc : skipComments (next (skipBlanks s).2.1).1 (next (skipBlanks s).2.1).2 with
     | .error e => .err e
@@ -737,8 +796,8 @@ def scan (prev : Int) (s : Sc) : ScanRes :=
     match scanToken (skipBlanks s).1 (skipBlanks s).2.1 with
     | .error e => .err e
     | .ok (t, s') =>
-      -- `if ch == '(' && lexer.PrevTokenType == ')' { lexer.PNewLine = newline } else { lexer.PNewLine = false }`
-      .tok t (if (skipBlanks s).1 = 40 ∧ prev = 41 then (skipBlanks s).2.2 else false) s'
+      -- `if ch == '(' && lexer.PrevTokenType == ')' { lexer.PNewLine = sc.Pos.Line != lexer.Token.Pos.Line } else { … = false }`
+      .tok t (if (skipBlanks s).1 = 40 ∧ prev.type = 41 then decide ((skipBlanks s).2.1.line ≠ prev.line) else false) s'
 termination_by s.rest.length
 decreasing_by
   rename_i hc
@@ -770,7 +829,7 @@ theorem scanToken_eof (ch : Int) (s : Sc) (t : Token) (s' : Sc)
       | (simp only [reduceCtorEq] at h)
 
 /-- **progress**: a `Scan` call that returns a token other than EOF has consumed at least one byte. -/
-theorem scan_progress (prev : Int) (s : Sc) (t : Token) (pnl : Bool) (s' : Sc)
+theorem scan_progress (prev : Prev) (s : Sc) (t : Token) (pnl : Bool) (s' : Sc)
     (h : scan prev s = .tok t pnl s') (ht : 0 ≤ t.type) : s'.rest.length < s.rest.length := by
   fun_induction scan prev s
   · simp at h
@@ -804,19 +863,76 @@ structure LexAll where
   err  : Option LexErr
 deriving Repr, Inhabited
 
-/-- `Lexer.Lex` driven to the end: `prev` = type of the previous token (0 initially: `ast.Token{}`).
+/-- `Lexer.Lex` driven to the end: `prev` = type and line of the previous token (`ast.Token{}` initially).
     Defined by well-founded recursion on the remaining input; the decreasing proof is `scan_progress`. -/
-def lexAll (prev : Int) (s : Sc) : LexAll :=
+def lexAll (prev : Prev) (s : Sc) : LexAll :=
   match _h : scan prev s with
   | .err e => { toks := [], err := some e }
   | .tok t pnl s' =>
     if _ht : t.type < 0 then { toks := [(t, pnl)], err := none }
     else
-      let r := lexAll t.type s'
+      let r := lexAll { type := t.type, line := t.line } s'
       { r with toks := (t, pnl) :: r.toks }
 termination_by s.rest.length
 decreasing_by exact scan_progress prev s t pnl s' _h (by omega)
 
-def lex (input : List UInt8) : LexAll := lexAll 0 (initSc input)
+def lex (input : List UInt8) : LexAll := lexAll {} (initSc input)
+
+/-! ### `Lexer.Lex`: what the goyacc driver reads
+
+  `yyParse` calls `yylex.Lex(&lval)` until it returns 0 (or `Lex` panics with the lexical error); between the calls
+  the grammar actions read `lval.token` (stored by `Lex`) and the fields of `*Lexer`.  `lexAll` above is that loop in
+  one function; here it is spelled call by call, with the lexer's fields, so that "what reaches the parser" is a
+  defined object (`parserInput`) and its equality with `lexAll` a theorem (Proofs/LexerParserInput.lean). -/
+
+/-- `ast.Token` as the parser sees it (`Name` is `TokenName(Type)`, `Pos.Source` the constant chunk name). -/
+structure PTok where
+  type : Int
+  str  : Buf
+  line : Int
+  col  : Int
+deriving Repr, DecidableEq, Inhabited
+
+def Token.toPTok (t : Token) : PTok := { type := t.type, str := t.str, line := t.line, col := t.col }
+
+/-- `parse.Lexer` (without `Stmts`, which the actions write): the scanner, `PNewLine`, `Token`;
+    `PrevTokenType` is overwritten with `Token.Type` at the start of every `Lex` call. -/
+structure LexerSt where
+  sc       : Sc
+  pnewline : Bool := false
+  token    : PTok := { type := 0, str := [], line := 0, col := 0 }   -- `ast.Token{Str: ""}`
+deriving Repr, Inhabited
+
+/-- what one `Lex` call hands to the parser: the returned int (0 at the end of the input), the token stored in
+    `lval.token` (nothing is stored at the end of the input), and `PNewLine` as the actions will read it. -/
+structure PRead where
+  code : Int
+  lval : Option PTok
+  pnl  : Bool
+deriving Repr, DecidableEq, Inhabited
+
+/-- `func (lx *Lexer) Lex(lval *yySymType) int`; `.error e` = `panic(err)`. -/
+def lexCall (lx : LexerSt) : Except LexErr (PRead × LexerSt) :=
+  -- lx.PrevTokenType = lx.Token.Type;  tok, err := lx.scanner.Scan(lx)
+  match scan { type := lx.token.type, line := lx.token.line } lx.sc with
+  | .err e => .error e
+  | .tok t pnl s' =>
+    if t.type < 0 then .ok ({ code := 0, lval := none, pnl := pnl }, { lx with sc := s', pnewline := pnl })
+    else .ok ({ code := t.type, lval := some t.toPTok, pnl := pnl }, { sc := s', pnewline := pnl, token := t.toPTok })
+
+/-- the sequence of `Lex` results the driver obtains, up to and including the 0 / up to the panic. -/
+def lexCalls (lx : LexerSt) : List PRead × Option LexErr :=
+  match _h : scan { type := lx.token.type, line := lx.token.line } lx.sc with
+  | .err e => ([], some e)
+  | .tok t pnl s' =>
+    if _ht : t.type < 0 then ([{ code := 0, lval := none, pnl := pnl }], none)
+    else
+      let r := lexCalls { sc := s', pnewline := pnl, token := t.toPTok }
+      ({ code := t.type, lval := some t.toPTok, pnl := pnl } :: r.1, r.2)
+termination_by lx.sc.rest.length
+decreasing_by exact scan_progress { type := lx.token.type, line := lx.token.line } lx.sc t pnl s' _h (by omega)
+
+/-- `Parse(reader, name)`: `&Lexer{NewScanner(reader, name), nil, false, ast.Token{Str: ""}, TNil}`. -/
+def parserInput (input : List UInt8) : List PRead × Option LexErr := lexCalls { sc := initSc input }
 
 end GLua.Lexer
